@@ -387,6 +387,7 @@ func Run(c *vk.Ctx) {
 		}
 	}
 	realFamily(c, &idx)
+	tlsFamily(c)
 	boundary(c, &idx)
 }
 
